@@ -44,3 +44,12 @@ man = {
 }
 json.dump(man, open(os.path.join(ROOT, "MANIFEST.json"), "w"), indent=1)
 print("checks:", [c["property_id"] for c in checks], "not_applicable:", [n["property_id"] for n in na])
+
+# lean/Qx.lean imports every module so `lake build Qx` builds the whole library
+mods = []
+for dp, _, fs in os.walk(os.path.join(ROOT, "lean", "Qx")):
+    for f in fs:
+        if f.endswith(".lean"):
+            rel = os.path.relpath(os.path.join(dp, f), os.path.join(ROOT, "lean"))[:-5]
+            mods.append(rel.replace(os.sep, "."))
+open(os.path.join(ROOT, "lean", "Qx.lean"), "w").write("".join("import %s\n" % m for m in sorted(mods)))
